@@ -4,7 +4,7 @@
    N, positive, Z, nat stay the extracted inductive datatypes. *)
 From Coq Require Extraction.
 From Coq Require Import ExtrOcamlBasic.
-From PL Require Import Model.Base Model.Order Model.Queue Model.Level Model.Conc Model.ConcQ Spec.MatchSpec Spec.Iface Spec.Priority Spec.QueueSpec Spec.Judges.
+From PL Require Import Model.Base Model.Order Model.Queue Model.Level Model.Conc Model.ConcQ Spec.MatchSpec Spec.Iface Spec.Priority Spec.QueueSpec Spec.Judges Spec.ConcJudges.
 
 Extraction Language OCaml.
 
@@ -21,4 +21,5 @@ Extraction "../modelrun/model.ml"
   inew iadd imatch iupdate live_tickets
   qshared_of_queue queue_of_qshared qthread_init qaccept qcstep qquiescent
   agg_b listing_ok_b accounting_b
-  exhaust_b stats_b update_ok_b update_counts_b.
+  exhaust_b stats_b update_ok_b update_counts_b
+  range_b handout_b cells_b final_cells_b drained_b ids.
